@@ -45,6 +45,24 @@ def linked_targets(w, rng):
     w.put_link(pb, pa)
 
 
+def linked_long(w, rng):
+    """Flag on; one export location is a symbolic link to an OVER-LONG file kept elsewhere (a cross-seeding layout): the
+    pre-flight opens it like any export file, so the run must abort before modifying anything.  (Only generated here, with
+    the flag on: without it the writer would resize the link's target - the case DESIGN 0.10 leaves outside.)"""
+    w.resize = True
+    cands = [(t, f) for t in w.torrents for f in t.files if not f.pad and f.length]
+    if not cands:
+        return
+    t, f = rng.choice(cands)
+    tgt = tuple(list(w.export) + t.rel_target(f))
+    w.remove_files(lambda rel, data, tgt=tgt: rel == tgt)
+    w.files.pop(tgt, None)
+    v = (b"vault", b"long%d" % rng.randint(0, 999))
+    w.put_dir((b"vault",))
+    w.put_file(v, f.content + bytes(rng.randint(1, 3)))
+    w.files[tgt] = ("symlink", b"../" * (len(tgt) - 1) + b"/".join(v))
+
+
 def prefix_dirs(w, rng):
     """Flag on; a multi-file torrent with two sibling directories of which one name is a TEXTUAL prefix of the other
     ('S 1' / 'S 10'); the first is absent from the export tree, the second exists and holds a file that is short (to be
@@ -74,7 +92,7 @@ correspondence, search, replay, ASSUMPTIONS = runbase.make(
     "C14", [oracles.c14, oracles.c02],
     [("on", 140, 1200, {"export_heavy": True}, force(True)), ("off", 80, 700, {"export_heavy": True}, force(False)),
      ("source", 50, 450, {"export_heavy": True}, only_in_export), ("linked", 30, 250, {"export_heavy": True}, linked_targets),
-     ("prefixdirs", 24, 200, {"export_heavy": True}, prefix_dirs)],
-    "worlds in which most export files pre-exist in a random state (absent / shorter by any amount / exact / longer), any file order, flag on and off, and (stream source) extended export files as the only source of their pieces, (stream prefixdirs) sibling export directories one of whose names is a textual prefix of the other, the shorter-named one absent, (stream linked) two export paths of different declared lengths hard-linked to one file that is over-long for one of them (availability oracle of C02 on the state after the pre-flight); pre-flight operations from the fs-shim log and before/after snapshots, plus trace validation of the prelude program",
+     ("prefixdirs", 24, 200, {"export_heavy": True}, prefix_dirs), ("linkedlong", 16, 120, {"export_heavy": True}, linked_long)],
+    "worlds in which most export files pre-exist in a random state (absent / shorter by any amount / exact / longer), any file order, flag on and off, and (stream source) extended export files as the only source of their pieces, (stream linkedlong) an export location that is a symbolic link to an over-long file, (stream prefixdirs) sibling export directories one of whose names is a textual prefix of the other, the shorter-named one absent, (stream linked) two export paths of different declared lengths hard-linked to one file that is over-long for one of them (availability oracle of C02 on the state after the pre-flight); pre-flight operations from the fs-shim log and before/after snapshots, plus trace validation of the prelude program",
     "resize_abort_no_mutation / resize_extends_exactly on the prelude program; tied to fix_export_file_lengths by prelude trace validation",
     ["a directory sitting at an export path is outside the modelled fragment"])
